@@ -130,7 +130,8 @@ static void part_ctor(const std::vector<unsigned>& ns, const std::vector<unsigne
             check_kick(kase, m, in, out, false, n, nb, it, key);
         } else {
             std::vector<uint32_t> buckets; for (unsigned b = 0; b < nb; b++) buckets.push_back(nb - 1 - b);
-            const unsigned spacing = n + 3, N = (var == 0 ? 32 : var == 1 ? 30 : 37) * (nb > 1 ? 2 : 1);
+            const unsigned spacing = n + 3, need = (nb - 1) * (nb > 1 ? spacing : 0) + n;
+            const unsigned N = std::max((var == 0 ? 32u : var == 1 ? 30u : 37u) * (nb > 1 ? 2 : 1), need + (var == 2 ? 1 - need % 2 : need % 2) + 2 * var);   // long enough for the whole train
             std::shared_ptr<Impedance> z = std::make_shared<ConstImpedance>(N, 1e12f, impedance_t(var == 2 ? 300.f : 120.f, var == 1 ? 80.f : 0.f));
             ElectricField f(in, z, buckets, nb > 1 ? spacing : 0, nullptr, 9e6, 0.01f, 3e-3, 1.3e9, 4.7e-4, 1e-9);
             in->updateXProjection();
@@ -200,11 +201,11 @@ int main(int argc, char** argv) {
              "trivial = FPType none / empty blob";
     R.sample_every = 2000;
     const bool T = R.thorough();
-    std::vector<unsigned> ns = T ? std::vector<unsigned>{8, 9, 12, 16} : std::vector<unsigned>{8, 9};
-    std::vector<unsigned> nbs = T ? std::vector<unsigned>{1, 2, 3} : std::vector<unsigned>{1, 2};
+    std::vector<unsigned> ns = T ? std::vector<unsigned>{8, 9, 12, 16, 17, 32} : std::vector<unsigned>{8, 9};
+    std::vector<unsigned> nbs = T ? std::vector<unsigned>{1, 2, 3, 4} : std::vector<unsigned>{1, 2};
     part_kick(ns, nbs);
-    part_ctor(T ? std::vector<unsigned>{12, 16, 17} : std::vector<unsigned>{12}, nbs);
-    std::vector<unsigned> fpn; if (T) for (unsigned n = 12; n <= 33; n++) fpn.push_back(n); else fpn = {12, 16, 17};
+    part_ctor(T ? std::vector<unsigned>{12, 16, 17, 32} : std::vector<unsigned>{12}, T ? std::vector<unsigned>{1, 2, 3} : nbs);
+    std::vector<unsigned> fpn; if (T) for (unsigned n = 12; n <= 65; n++) fpn.push_back(n); else fpn = {12, 16, 17};
     part_fp(fpn, T ? std::vector<int>{-3, -2, -1, 0, 1, 2, 3} : std::vector<int>{0, 2, -1});
     return R.finish();
 }
